@@ -42,8 +42,8 @@ MANIFEST = dict(
     technique="Lean 4 proof (two-phase deletion on a reference graph: coverage of purge contexts, refusal before write) + differential correspondence and raw-diff monitor on real deletions",
 )
 
-QUICK = [("write", 40), ("t52", 25), ("libproj", 10), ("t50", 10)]
-THOROUGH = [("write", 60), ("empty52", 10), ("filtering", 20), ("libproj", 25), ("t50", 40), ("t52", 70), ("t60", 40), ("pvmt", 15)]
+QUICK = [("write", 40), ("write+frag", 25), ("t52", 25), ("libproj", 10), ("t50", 10)]
+THOROUGH = [("write", 60), ("write+frag", 60), ("t52+frag", 40), ("empty52", 10), ("filtering", 20), ("libproj", 25), ("t50", 40), ("t52", 70), ("t60", 40), ("pvmt", 15)]
 TOKEN = re.compile(r"#([0-9a-f]{8}-[0-9a-f]{4}-[0-9a-f]{4}-[0-9a-f]{4}-[0-9a-f]{12})")
 
 
@@ -207,7 +207,8 @@ def entry_points(model, tgt, rng: random.Random):
             out.append(("delitem", lambda lst=lst, i=i: lst.__delitem__(i), r))
             out.append(("delitem-neg", lambda lst=lst, i=i: lst.__delitem__(i - len(lst)), r))
             out.append(("remove", lambda lst=lst: lst.remove(tgt), r))
-            if len(lst) == 1:
+            if len(lst) == 1 and r.kind in ("DirectProxyAccessor", "AttributeMatcherAccessor"):
+                # (RoleTagAccessor.__set__ on a list raises NotImplementedError by design: not a deletion entry point)
                 out.append(("delattr", lambda r=r: delattr(r.owner, r.attr), r))
                 out.append(("assign-empty", lambda r=r: setattr(r.owner, r.attr, []), r))
             out.append(("decl-delete", lambda r=r: decl_delete(model, r, tgt), r))
